@@ -72,9 +72,16 @@ func (w *verifRW3) WriteMsg(context.Context, *dns.Msg, *dns.Msg) error { w.write
 // recycled one that served a recognised (or failed) request before: only a
 // DeviceResultOK of this request exposes a profile and device downstream.
 //
-//verif:harness name=H03d-pooled tier=quick,thorough bounds="2..3 consecutive requests through the real ratelimitmw.Wrap with its request-info pool handing released objects back; device finder result per request from {none, OK of profile A, OK of profile B, authentication failure}" reach=done,anonymous-after-recognised,recognised maxpaths=20000
+//verif:harness name=H03d-pooled tier=quick bounds="2..3 consecutive requests through the real ratelimitmw.Wrap with its request-info pool handing released objects back; device finder result per request from {none, OK of profile A, OK of profile B, authentication failure}" reach=done,anonymous-after-recognised,recognised maxpaths=20000
 //verif:assume sync.Pool hands the most recently released object back; access manager, GeoIP and limiter are pass-through stubs
-func VerifC03Pooled() {
+func VerifC03Pooled() { verifC03Pooled(2) }
+
+// VerifC03Pooled5 is the thorough variant.
+//
+//verif:harness name=H03d-pooled5 tier=thorough bounds="as H03d-pooled with 2..5 consecutive requests" reach=done,anonymous-after-recognised,recognised maxpaths=5000000
+func VerifC03Pooled5() { verifC03Pooled(4) }
+
+func verifC03Pooled(extra int) {
 	verifPoolMode(1)
 	msgs, err := dnsmsg.NewConstructor(&dnsmsg.ConstructorConfig{
 		Cloner:              agdtest.NewCloner(),
@@ -103,7 +110,7 @@ func VerifC03Pooled() {
 		{ID: "profbbbb", BlockingMode: &dnsmsg.BlockingModeNXDOMAIN{}, FilteredResponseTTL: 20 * time.Second, Access: access.EmptyProfile{}, Ratelimiter: agd.GlobalRatelimiter{}},
 	}
 	devs := [2]*agd.Device{{ID: "devaaaaa"}, {ID: "devbbbbb"}}
-	n := 2 + verifChoice(2)
+	n := 2 + verifChoice(extra)
 	prevRecognised := false
 	for i := 0; i < n; i++ {
 		kind := verifChoice(4)
